@@ -168,6 +168,9 @@ func curTask() *Task {
 	if e == nil || e.cur == nil {
 		panic("vsched: operation outside a scheduled task")
 	}
+	if e.cur.killed {
+		runtime.Goexit()
+	}
 	return e.cur
 }
 
@@ -312,7 +315,7 @@ func (e *Exec) spawn(parent *Task, free bool, f func()) *Task {
 	go func() {
 		<-t.wake
 		defer func() {
-			if r := recover(); r != nil {
+			if r := recover(); r != nil && !t.killed { // (a task unwinding at teardown may trip over state it no longer owns)
 				buf := make([]byte, 4096)
 				n := runtime.Stack(buf, false)
 				e.fails = append(e.fails, Failure{Signature: "panic in task: " + firstLine(fmt.Sprint(r)), Detail: fmt.Sprintf("task %s panicked: %v\n%s", t.Name, r, buf[:n])})
@@ -1049,6 +1052,25 @@ func choose(n int) int {
 	t := curTask()
 	e.park(&op{kind: opChoose, n: n})
 	return t.chosen
+}
+
+// SortedKeys returns the keys of m in a canonical order (statement-point mode: map iteration
+// order must not influence the sequence of scheduling points). Pointer keys are ordered by the
+// value they point to, never by address.
+func SortedKeys[K comparable, V any](m map[K]V) []K {
+	keys := make([]K, 0, len(m))
+	strs := make(map[K]string, len(m))
+	for k := range m {
+		keys = append(keys, k)
+		v := reflect.ValueOf(k)
+		if v.Kind() == reflect.Pointer && !v.IsNil() {
+			strs[k] = fmt.Sprintf("%+v", v.Elem().Interface())
+		} else {
+			strs[k] = fmt.Sprintf("%+v", k)
+		}
+	}
+	sort.Slice(keys, func(i, j int) bool { return strs[keys[i]] < strs[keys[j]] })
+	return keys
 }
 
 // RangeKeys returns the keys of m in an order that is an explorer choice (all permutations).
